@@ -26,7 +26,7 @@ META = dict(
                       "DER containers, point objects with validation on; (B) toy curves p in "
                       "{11,13,19,23}, all byte strings of length 1..3; (C) cofactor 2 and 4 curves over p in {7,...,19}, all "
                       "(x, y) in [0,2p)^2",
-                thorough="(B) p up to 61"),
+                thorough="(B) p up to 31"),
     stubs=ecstub.STUBS + eg.STUBS,
     outside=["square-root correctness and subgroup membership at production primes (C15, C06/C07)",
              "(A) identifies the square-root argument by the term the code passes; that it equals "
